@@ -745,6 +745,10 @@ theorem ctl_spec {m : SeqMod} (w : WFacts m) {s : St} (hc : Core m s) (c : Ctl) 
     simp only [ctl, restartModule]
     exact ⟨⟨hc.seq, hc.ord, hc.ordPat, ⟨by simp only; omega, by have := w.len; simp only; omega⟩, hc.row, hc.speed, hc.bpm,
       hc.ftBpm, hc.st26, hc.jump, hc.jumpline⟩, fun ri => ⟨ri.rowLt, ri.numOk⟩⟩
+  | bufReset =>
+    simp only [ctl, bufferReset]
+    exact ⟨⟨hc.seq, hc.ord, hc.ordPat, hc.pos, hc.row, hc.speed, hc.bpm,
+      hc.ftBpm, hc.st26, hc.jump, hc.jumpline⟩, fun ri => ⟨ri.rowLt, ri.numOk⟩⟩
 
 /-! ## Termination of the order-skipping loop of `next_order` -/
 
